@@ -248,3 +248,10 @@ func VerifHarness_C10_Extension() {
 	verifrt.Assert(ok, "extension-equals-where-url")
 	verifrt.Reach("end")
 }
+
+// C10: where(p) is exactly the order-preserving sub-collection of the items for which p is true and exists(p) equals
+// where(p).exists(), for every form a criterion's result can take (System and FHIR booleans, empty, other single
+// items, multi-item); all(p) is true iff p is true for every item. (The bodies are shared with C06's singleton rule.)
+func VerifHarness_C10_WhereExists() { verifWhereCriteria() }
+
+func VerifHarness_C10_All() { verifAllCriteria() }
